@@ -12,8 +12,8 @@ def run(ctx):
     r = tlc_expect_ok(tlc("MC_Revocation", "MC_Revocation.cfg", name="mc_revocation", workers=2, timeout=600), "MC Revocation")
     ctx.add_tlc(r)
     vecs = tlc_expect_ok(tlc("MC_Revocation", "MC_Revocation_emit.cfg", name="revocation_emit", workers=2, timeout=600, coverage=False), "emit").printed("VEC")
-    if len(vecs) != 18:
-        raise ToolError("expected 18 vectors, got %d" % len(vecs))
+    if len(vecs) != 54:
+        raise ToolError("expected 54 vectors, got %d" % len(vecs))
     d = ctx.path("pki")
     shutil.rmtree(d, ignore_errors=True); os.makedirs(d)
     try:
@@ -27,7 +27,14 @@ def run(ctx):
         runs = [{"id": 0, "chain": chain, "key": lp8, "alg": "es256", "sign_settings": {"verify": {"verify_after_sign": False, "verify_trust": False}}, "reads": []}]
         for i, v in enumerate(vecs, start=1):
             rcert, rkey = {"delegated": (dc, dk), "ca": (ic, ik), "unrelated": (uc, uk)}[v["responder"]]
-            resp = K.ocsp_response(d, "r%d" % i, ic, ik, rcert, rkey, lc if v["about"] == "signing" else oc, v["status"])
+            subject, other = (lc, oc) if v["about"] == "signing" else (oc, lc)
+            if v["batch"] == "single":
+                resp = K.ocsp_response(d, "r%d" % i, ic, ik, rcert, rkey, subject, v["status"])
+            else:
+                entries = [(subject, v["status"]), (other, "good")]
+                if v["batch"] == "other-good-first":
+                    entries.reverse()
+                resp = K.ocsp_response_multi(d, "r%d" % i, ic, ik, rcert, rkey, entries)
             runs.append({"id": i, "chain": chain, "key": lp8, "alg": "es256", "ocsp": resp, "sign_settings": {"verify": {"verify_after_sign": False, "verify_trust": False}}, "reads": []})
     except K.KitError as e:
         raise ToolError("PKI generation failed: %s" % e)
@@ -53,7 +60,7 @@ def run(ctx):
         read = o["reads"][0]["read"]
         state = read.get("state")
         fails = sorted(c[1] for c in read.get("active", []) if c[0] == "failure")
-        key = "%s:%s:%s" % (v["status"], v["about"], v["responder"])
+        key = "%s:%s:%s%s" % (v["status"], v["about"], v["responder"], "" if v["batch"] == "single" else ":" + v["batch"])
         if v["verdict"] == "not-valid":
             if state in ("Valid", "Trusted"):
                 ctx.violation("revoked-valid:%s" % key, "a binding OCSP response says revoked, the manifest is reported %s" % state, case)
@@ -63,5 +70,5 @@ def run(ctx):
     ctx.cov["traces_validated_against_impl"] += len(vecs) + 1
     ctx.cov["evaluations"] = len(vecs)
     ctx.cov["distinct_nontrivial"] = sum(1 for v in vecs if v["status"] == "revoked")
-    ctx.cov["rule"] = "all 18 combinations of status x subject x responder, each stapled into a freshly signed asset; non-trivial = revoked responses"
+    ctx.cov["rule"] = "all 54 combinations of status x subject x responder x batching (single entry, or a second entry saying good about the other certificate before / after it), each stapled into a freshly signed asset; non-trivial = revoked responses"
     ctx.sample({"vector": vecs[0]})
